@@ -99,6 +99,31 @@ def gen_rs(r, tier):
     return line, {"op": "rs", "style": style, "n": n, "quat": quat, "circ": circ}
 
 
+def gen_large(r, tier, op):
+    """large particle counts (accumulated rounding of the cumulative weights must stay at double precision level):
+    a few thousand in the quick tier, up to 65536 in the thorough tier; adversarial tails of zero-weight particles"""
+    if op == "rwp":
+        n = r.choice([1500, 2048, 3000]) if tier == "quick" else r.choice([3000, 5000, 8000])
+    else:
+        n = r.choice([2048, 3000, 4096, 5000, 6000]) if tier == "quick" else r.choice([6000, 16384, 30000, 60000, 65536])
+    style = r.choice(["large-zeros-tail", "large-zeros-tail", "large-uniform", "large-random", "large-dominated"])
+    if style == "large-zeros-tail":
+        z = r.randint(n // 10, n // 2)
+        w = normalise([r.uniform(-1.5, 0) for _ in range(n - z)] + [NEG_INF] * z)
+    elif style == "large-uniform":
+        w = [-math.log(n)] * n
+    elif style == "large-dominated":
+        w = normalise([0.0 if i % 997 == 0 else r.uniform(-12, -6) for i in range(n)])
+    else:
+        w = normalise([r.uniform(-4, 0) for _ in range(n)])
+    lin, circ, quat = r.choice([(1, 0, 0), (2, 1, 0), (1, 1, 1)])
+    seed = r.randrange(1, 2 ** 32)
+    if op == "rwp":
+        ratio = r.choice([0.1, 0.3, 0.5])
+        return "rwp %d %d %d %d %d %s %s" % (seed, n, lin, circ, quat, hexd(ratio), " ".join(hexd(x) for x in w)), {"op": "rwp", "style": style, "n": n, "quat": quat, "circ": circ, "ratio": ratio}
+    return "rs %d %d %d %d %d %s" % (seed, n, lin, circ, quat, " ".join(hexd(x) for x in w)), {"op": "rs", "style": style, "n": n, "quat": quat, "circ": circ}
+
+
 RATIOS = [0.0, 0.1, 0.25, 0.3, 0.5, 0.7, 0.75, 0.9, 0.99]
 
 
@@ -253,6 +278,21 @@ def comb_count(n, u1, a, b):
     return max(0, f(b) - f(a))
 
 
+SH = 1074                 # every finite double is an integer multiple of 2^-1074: exact integer arithmetic, fast
+SH2 = SH + 52
+
+
+def to_int(fr):
+    return fr.numerator * ((1 << SH) // fr.denominator)
+
+
+def comb_count_int(n, U1, A, B, sh):
+    """number of j in [0, n) with a < u1 + j/n <= b, all quantities integers scaled by 2^sh"""
+    def f(X):
+        return max(-1, min(n - 1, (n * (X - U1)) >> sh))
+    return max(0, f(B) - f(A))
+
+
 def cum_sums(e):
     c, acc = [], Fraction(0)
     for x in e:
@@ -300,9 +340,16 @@ def check_rs(line, meta, h, dq, df, dw, stats):
     shape = [int(x) for x in ht[p:p + 13]]
     if len(ht) > p + 13 and ht[p + 13] != "neff-same":
         probs.append(("prop", "neff-wrong", "neff queried before and after the call gives different answers"))
+    if len(ht) > p + 14:
+        stats["content_scale_class_%s" % ht[p + 14]] = stats.get("content_scale_class_%s" % ht[p + 14], 0) + 1
     normalised = meta["style"] != "subnormalised"
     tol = Fraction(n * EPS)
     c = cum_sums(e)
+    Ei = [to_int(x) for x in e]
+    Ci, acc = [], 0
+    for x in Ei:
+        acc += x
+        Ci.append(acc)
     # ---- correspondence: parents against the exact model
     if not dq.startswith("ok"):
         probs.append(("corr", "model-undefined", "model not defined: %s" % dq[:60]))
@@ -327,7 +374,8 @@ def check_rs(line, meta, h, dq, df, dw, stats):
         uj_last = u1 + Fraction(n - 1, n)
         if uj_last > c[-1]:
             stats["clamp_decisive"] = stats.get("clamp_decisive", 0) + 1
-        if any(u1 + Fraction(j, n) == c[mq[j]] for j in range(n)):
+        U1n = to_int(u1) * n
+        if any(U1n + (j << SH) == n * Ci[mq[j]] for j in range(n)):
             stats["comb_equals_cumulative_exactly"] = stats.get("comb_equals_cumulative_exactly", 0) + 1
             if par == mq:
                 stats["boundary_tie_impl_as_model"] = stats.get("boundary_tie_impl_as_model", 0) + 1
@@ -353,16 +401,20 @@ def check_rs(line, meta, h, dq, df, dw, stats):
         cnt = [0] * n
         for q in par:
             cnt[q] += 1
-        prev = Fraction(0)
+        # integer arithmetic: x (1 +- tol) with tol = n 2^-52 is x (2^52 +- n) at scale 2^(1074 + 52)
+        U1, U1b = to_int(u1), to_int(u1) << 52
+        up, dn = (1 << 52) + n, (1 << 52) - n
+        slack_tot = n * abs(Ci[-1] - (1 << SH))
+        prevI = 0
         for i in range(n):
-            a, b = prev, c[i]
-            prev = b
-            lo = comb_count(n, u1, a * (1 + tol), b * (1 - tol)) if b * (1 - tol) > a * (1 + tol) else 0
-            hi = comb_count(n, u1, a * (1 - tol), b * (1 + tol))
-            exact = comb_count(n, u1, a, b)
+            A, B = prevI, Ci[i]
+            prevI = B
+            lo = comb_count_int(n, U1b, A * up, B * dn, SH2) if B * dn > A * up else 0
+            hi = comb_count_int(n, U1b, A * dn, B * up, SH2)
+            exact = comb_count_int(n, U1, A, B, SH)
             if hi != lo:
                 stats["count_intervals_touched_by_rounding"] = stats.get("count_intervals_touched_by_rounding", 0) + 1
-            if not (abs(exact - n * e[i]) < 1 + n * abs(c[-1] - 1)):
+            if not (abs((exact << SH) - n * Ei[i]) < (1 << SH) + slack_tot):
                 probs.append(("corr", "count-theorem", "exact comb count %d vs N w = %.6g" % (exact, float(n * e[i]))))
             if not (lo <= cnt[i] <= hi):
                 probs.append(("prop", "replication-count", "particle %d (weight %.6g, N w = %.6g) replicated %d times; comb points in its weight interval: %d..%d" % (i, float(e[i]), float(n * e[i]), cnt[i], lo, hi)))
@@ -424,6 +476,8 @@ def check_rwp(line, meta, h, d, dq, stats):
     wrows = int(ht[p]); p += 1
     wout = ht[p:p + wrows]; p += wrows
     same = ht[p]
+    if len(ht) > p + 1:
+        stats["content_scale_class_%s" % ht[p + 1]] = stats.get("content_scale_class_%s" % ht[p + 1], 0) + 1
     # ---- property predicates
     dimcov = shape[12]
     if not (shape[0] == n and shape[5] == n and shape[7] == n and shape[10] == n and shape[9] == n * dimcov and cols == n):
@@ -566,6 +620,8 @@ def run(ctx):
     cases += [gen_rs(r, ctx.tier) for _ in range(n_rs)]
     cases += [gen_rwp(r, ctx.tier) for _ in range(n_rwp)]
     cases += [gen_seq(r, ctx.tier) for _ in range(n_seq)]
+    if not replay_line:
+        cases += [gen_large(r, ctx.tier, "rs") for _ in range(ctx.n(6, 10))] + [gen_large(r, ctx.tier, "rwp") for _ in range(ctx.n(2, 4))]
     lines = [c[0] for c in cases]
     hout, logs = vlib.run_harness(binary, lines)
     n_inputs = len(cases)
@@ -600,7 +656,7 @@ def run(ctx):
         if "call" in meta:
             ck = "object_calls_first" if meta["call"] == 0 else "object_calls_later"
             stats[ck] = stats.get(ck, 0) + 1
-        nb = "N=1" if meta["n"] == 1 else "N=2..4" if meta["n"] <= 4 else "N=5..40" if meta["n"] <= 40 else "N>40"
+        nb = "N=1" if meta["n"] == 1 else "N=2..4" if meta["n"] <= 4 else "N=5..40" if meta["n"] <= 40 else "N=41..400" if meta["n"] <= 400 else "N>1000"
         nhist[nb] = nhist.get(nb, 0) + 1
         if meta.get("quat"):
             stats["quaternion_layout_cases"] = stats.get("quaternion_layout_cases", 0) + 1
@@ -639,7 +695,7 @@ def run(ctx):
         "evaluations": len(cases), "input_lines": n_inputs, "distinct_nontrivial": len(nontrivial & distinct),
         "rule": "systematic resampling (rs) and prior-mixing resampling (rwp) on seeded random log-weight vectors: uniform, one-hot, exact zeros (-inf), "
                 "object-level sequences (seq: ONE object built by each constructor overload of Resampling / ResamplingWithPrior, also obtained by copy / move construction / assignment before or after its first call, used through Resampling*, serving 2..5 successive calls with different N, layouts and weights, twin generator in lock-step, every predicate per call), spanning 300 orders of magnitude, dominated, ties, near 1/N, deliberately sub-normalised (clamp branch), crafted u_0 == c_0 boundary, "
-                "N in 1..%d, random 32-bit seeds, layouts lin 0..3 / circ 0..2 / quaternion, ratios in [0,1); non-trivial = N > 1; distinct = distinct input lines"
+                "N in 1..%d plus large sets (2048..6000 quick, up to 65536 thorough, with long tails of zero-weight particles), particle contents at scales 2^-70 .. 2^40 incl. exactly zero mean / covariance blocks, random 32-bit seeds, layouts lin 0..3 / circ 0..2 / quaternion, ratios in [0,1); non-trivial = N > 1; distinct = distinct input lines"
                 % (200 if ctx.quick() else 400),
         "samples": [cases[0][0][:300], cases[len(cases) // 2][0][:300], lines[-1][:300]],
         "style_histogram": hist, "size_histogram": nhist, "branch_and_numeric_counters": stats,
